@@ -118,7 +118,8 @@ CONTRACT[WL + 'run_normal_WL'] = dict(
     self=mk_machine_run, feas_cone=True,
     requires=['seq_inv(self.seq)', 'dmax_inv(self.seq)', 'forall(lambda j: is_aa(self.seq.seq[j]), 0, self.seq.len)', 'self.seq.len >= 4',
               'self.nflatchk >= 1', 'self.dotdotfreq >= 1'],
-    raises=[], may_raise=[('SequenceException', 'True'), ('ValueError', 'True')], modifies=[],
+    raises=[], may_raise=[('SequenceException', 'True'), ('ValueError', 'True')],
+    modifies=['seq.dmax', 'seq.seqDeltaMax'],       # the start state is the input's delta-max permutant: the search fills the input's caches
     call_lemmas={'Sequence.kappa': lambda it, fr, lineno: _rebuilt_hints(it, fr)},
     # the run stops only when f has reached the convergence threshold; the returned array pairs the bin centres with g
     ensures=['local("f") <= self.convergence',
@@ -178,6 +179,6 @@ LOOPS[WL + 'run_normal_WL'][2] = dict(index='i', invariant=['length(g) == self.n
 # NaN semantics are outside the model, so this case of the flat check is an ASSUMED contract.
 CONTRACT[WL + '__run_flatcheck#allzero'] = dict(
     self=mk_machine, params=CONTRACT[WL + '__run_flatcheck']['params'],
-    requires=['length(H) == self.nbins_actual', 'isum(lambda j: Hlocal[j], 0, length(Hlocal)) == 0'], raises=[], modifies=[], trusted=True, returns=_flatcheck_result,
+    requires=['length(H) == self.nbins_actual', 'forall(lambda i: Hlocal[i] >= 0, 0, length(Hlocal))', 'isum(lambda j: Hlocal[j], 0, length(Hlocal)) <= 0'], raises=[], modifies=[], trusted=True, returns=_flatcheck_result,
     ensures=['result[3] == 0', 'result[1] == f', 'result[2] == niter', 'seq_eq(result[0], H)'])
-CONTRACT[WL + '__run_flatcheck']['dispatch'] = [('isum(lambda j: Hlocal[j], 0, length(Hlocal)) == 0', WL + '__run_flatcheck#allzero')]
+CONTRACT[WL + '__run_flatcheck']['dispatch'] = [('isum(lambda j: Hlocal[j], 0, length(Hlocal)) <= 0', WL + '__run_flatcheck#allzero')]
